@@ -115,6 +115,12 @@ def custom_condition(
                 tokens[2] = tokenizer.merge_tokens(tokens[2:4])
                 del tokens[3]
             elif tokens[3].string == "-":
+                if len(tokens) < 5:
+                    raise JMCSyntaxException(
+                        "Expected integer after '-' in condition (got nothing)",
+                        tokens[3],
+                        tokenizer,
+                    )
                 tokens[3] = tokenizer.merge_tokens(tokens[3:5])
                 del tokens[4]
             else:
@@ -126,6 +132,12 @@ def custom_condition(
 
         if len(tokens) > 3:
             if tokens[3].string == "-":
+                if len(tokens) < 5:
+                    raise JMCSyntaxException(
+                        "Expected integer after '-' in condition (got nothing)",
+                        tokens[3],
+                        tokenizer,
+                    )
                 tokens[3] = tokenizer.merge_tokens(tokens[3:5])
                 del tokens[4]
             elif len(tokens) > 3 and tokens[2].string.endswith(".."):
@@ -142,6 +154,12 @@ def custom_condition(
             tokens[2] = tokenizer.merge_tokens(tokens[2:4])
             del tokens[3]
 
+        if len(tokens) > 3:
+            raise JMCSyntaxException(
+                f"Unexpected token ('{tokens[3].string}') after variable ('{tokens[2].string}') in condition",
+                tokens[3],
+                tokenizer,
+            )
         first_token, operator_token, second_token = tokens
         if operator_token.token_type == TokenType.OPERATOR:
             if second_token.string == "true":
@@ -221,6 +239,10 @@ def custom_condition(
 
     matched_function = BOOL_FUNCTIONS.get(tokens[0].string, None)
     if matched_function is not None:
+        if len(tokens) < 2:
+            raise JMCSyntaxException(
+                "Expected (", tokens[0], tokenizer, col_length=True
+            )
         if len(tokens) > 2:
             raise JMCSyntaxException(
                 "Unexpected token", tokens[2], tokenizer, display_col_length=False
@@ -237,6 +259,12 @@ def custom_condition(
         func_content = FUNC_CONTENT[0](
             tokenizer, [tokens], is_load=False, lexer=datapack.lexer, prefix=prefix
         ).parse()
+        if not func_content:
+            raise JMCSyntaxException(
+                f"Function call ({tokens[0].string}) in condition does not result in any command",
+                tokens[0],
+                tokenizer,
+            )
         return Condition(func_content[0], IF)
 
     nbt_type = get_nbt_type(tokens)
@@ -300,6 +328,10 @@ def find_operator(
 
     for token in _tokens:
         if token.token_type == TokenType.OPERATOR and token.string == operator:
+            if not tokens:
+                raise JMCSyntaxException(
+                    f"Unexpected operator ({operator})", token, tokenizer
+                )
             list_of_tokens.append(tokens)
             tokens = []
         else:
@@ -329,7 +361,7 @@ def condition_to_ast(
                 tokenizer,
             )
 
-        tokenizer = Tokenizer(
+        inner_tokenizer = Tokenizer(
             tokens[0].string[1:-1],
             tokenizer.file_path,
             tokens[0].line,
@@ -337,6 +369,13 @@ def condition_to_ast(
             tokenizer.file_string,
             expect_semicolon=False,
         )
+        if not inner_tokenizer.programs:
+            raise JMCSyntaxException(
+                "Unexpected empty round bracket, `()`, inside condition",
+                tokens[0],
+                tokenizer,
+            )
+        tokenizer = inner_tokenizer
         tokens = tokenizer.programs[0]
 
     for key_pos in range(len(tokens)):
@@ -364,6 +403,12 @@ def condition_to_ast(
 
     # NotOperator should have a body as either dict or string and not list
     if tokens[0].token_type == TokenType.OPERATOR and tokens[0].string == NOT_OPERATOR:
+        if len(tokens) == 1:
+            raise JMCSyntaxException(
+                f"Expected condition after operator ({NOT_OPERATOR})",
+                tokens[0],
+                tokenizer,
+            )
         return {
             "operator": NOT_OPERATOR,
             "body": condition_to_ast(tokens[1:], tokenizer, datapack, prefix),
@@ -538,6 +583,12 @@ def parse_condition(
 def extract_matches(
     tokenizer: Tokenizer, token: Token, first_token: Token | None
 ) -> str:
+    if token.token_type != TokenType.KEYWORD:
+        raise JMCSyntaxException(
+            "Expected <integer>..<integer> after 'matches'",
+            token,
+            tokenizer,
+        )
     match_tokens_ = tokenizer.split_keyword_token(token, "..")
     match_tokens = tokenizer.find_token(match_tokens_, "..")
     has_first = True
@@ -547,6 +598,13 @@ def extract_matches(
             "Expected <integer>..<integer> after 'matches'",
             token,
             tokenizer,
+        )
+    if not match_tokens[0] and not match_tokens[1]:
+        raise JMCSyntaxException(
+            "Expected <integer>..<integer> after 'matches'",
+            token,
+            tokenizer,
+            suggestion="There must be at least 1 integer. '..' doesn't mean anything.",
         )
     if not match_tokens[0]:
         if first_token is not None:
@@ -566,13 +624,6 @@ def extract_matches(
                 suggestion=f"Use {first_token.string}>={match_tokens[0][0].string} instead",
             )
         has_second = False
-    if not match_tokens[0] and not match_tokens[1]:
-        raise JMCSyntaxException(
-            "Expected <integer>..<integer> after 'matches'",
-            token,
-            tokenizer,
-            suggestion="There must be at least 1 integer. '..' doesn't mean anything.",
-        )
     header = Header()
     first = match_tokens[0][0].string if has_first else ""
     first_prefix = ""
